@@ -60,6 +60,7 @@ class Cfg:
         self.inline_rich = True          # inline objects may hold references, match fields, MetaData-typed fields
         self.meta_pad_attr = True        # padding attributes on MetaData-typed fixed strings
         self.length_any_target = False   # @lengthOf aimed at a string / scalar / fixed string / list / inline object (the visitor accepts any member)
+        self.wide_keys = True            # match keys that are 64-bit integers, fixed strings or MetaData-typed members
         self.def_order = True            # top-level definitions in any order (MetaData / options after the packets using them)
         self.__dict__.update(kw)
 
@@ -175,6 +176,21 @@ def gen_program(rng, cfg=None):
             if cfg.allow_match and later and r < 0.18:
                 # key field + match field (+ optional length field before it, root only)
                 ktype = rng.choice(INTS[:6] + (["string"] if cfg.string_keys else []))
+                kfield = None
+                if cfg.wide_keys and rng.random() < 0.3:
+                    # the key may be any member: 64-bit integers, fixed strings, MetaData-typed members
+                    alt = rng.choice(["u64", "i64", "fixed", "meta"])
+                    mk = [m for m in metas if isinstance(m, dict) and not m.get("repeat")
+                          and ((m["kind"] == "scalar" and m["type"] in INTS) or (m["kind"] == "fixed" and not m["z"]) or m["kind"] == "dyn")]
+                    if alt in ("u64", "i64"):
+                        ktype = alt
+                    elif alt == "fixed" and cfg.string_keys:
+                        ktype = "string"
+                        kfield = {"kind": "fixed", "name": name, "n": rng.choice([3, 4, 8]), "z": False, "pad": None, "repeat": False, "doc": None}
+                    elif alt == "meta" and mk and (cfg.string_keys or any(m["kind"] == "scalar" for m in mk)):
+                        m = rng.choice([m for m in mk if cfg.string_keys or m["kind"] == "scalar"])
+                        ktype = m["type"] if m["kind"] == "scalar" else "string"
+                        kfield = {"kind": "metaref", "name": name, "meta": m["name"], "named": True, "repeat": False, "doc": None, "pad": None}
                 kname = name
                 mname = fnames[j]
                 j += 1
@@ -190,7 +206,13 @@ def gen_program(rng, cfg=None):
                     else:
                         pairs.append({"keys": [_key(ktype, kv)], "list": False, "target": t})
                         kv += 1
-                if ktype == "string":
+                if cfg.wide_keys and ktype in INTS and rng.random() < 0.15:
+                    # the largest value of the key's type (for u32 / 64-bit keys beyond a Java int literal)
+                    top = 2 ** (int(ktype[1:]) - (1 if ktype[0] == "i" else 0)) - 1
+                    pairs.append({"keys": [str(top)], "list": False, "target": rng.choice(targets)})
+                if kfield is not None:
+                    fields.append(kfield)
+                elif ktype == "string":
                     fields.append({"kind": "dyn", "name": kname, "spelling": "string", "repeat": False, "doc": None})
                 else:
                     fields.append({"kind": "scalar", "name": kname, "type": ktype, "alias": ktype in ALIAS and rng.random() < 0.3, "repeat": False, "doc": None})
